@@ -21,6 +21,8 @@ import (
 //	u.t.         unsigned, no DS (proven insecure delegation)
 //	p.t.+c.p.t.  one server; p signed (CSK), c unsigned (no DS)
 //	d.t.         NSEC, DNAME alias.d.t. -> s.t., DNAME ins.d.t. -> u.t.
+//	rs.t.        unsigned, no DS, hosted by the ROOT server (the
+//	             root-servers.net shape: the root answers it without a referral)
 func vkUniverse(rot int) *zonemodel.Universe {
 	alg := func(i int) uint8 { return zonemodel.Algorithms[(i+rot)%len(zonemodel.Algorithms)] }
 	u := zonemodel.NewUniverse("c01")
@@ -34,6 +36,7 @@ func vkUniverse(rot int) *zonemodel.Universe {
 	p := u.AddZone(zonemodel.ZoneSpec{Apex: "p.t.", Mode: zonemodel.NSEC, Alg: alg(2), CSK: true, Server: "p.t."})
 	c := u.AddZone(zonemodel.ZoneSpec{Apex: "c.p.t.", Mode: zonemodel.Unsigned, Server: "p.t."})
 	d := u.AddZone(zonemodel.ZoneSpec{Apex: "d.t.", Mode: zonemodel.NSEC, Alg: alg(0)})
+	rs := u.AddZone(zonemodel.ZoneSpec{Apex: "rs.t.", Mode: zonemodel.Unsigned, Server: "."})
 
 	s.Add(
 		"a A 10.1.0.1", "a A 10.1.0.2", "a AAAA 2001:db8:1::1", `a TXT "a-in-s"`,
@@ -60,6 +63,7 @@ func vkUniverse(rot int) *zonemodel.Universe {
 	p.Add("a A 10.6.0.1", `a TXT "a-in-p"`)
 	c.Add("a A 10.7.0.1", `a TXT "a-in-c"`)
 	d.Add("alias DNAME s.t.", "ins DNAME u.t.", "a A 10.8.0.1")
+	rs.Add("a A 10.9.0.1", `a TXT "a-in-rs"`)
 	return u.Build()
 }
 
@@ -92,6 +96,7 @@ var vkNames = []vkName{
 	{"a.ins.d.t.", 0},   // DNAME from a secure zone into the insecure u.t.
 	{"y.w.o.t.", 0},     // wildcard expansion in an opt-out zone (never AD)
 	{"s.t.", 0},         // apex: DS at the parent, DNSKEY at the child
+	{"a.rs.t.", 0},      // unsigned grandchild answered by the root server without a referral
 	{"ent.s.t.", 1},     // empty non-terminal
 	{"wc.s.t.", 1},      // CNAME onto a wildcard-expanded name
 	{"www.h.t.", 1},     // in-zone CNAME (NSEC3)
